@@ -7,7 +7,8 @@ From Coq.Strings Require Import Byte.
 Import ListNotations.
 From GA.Base Require Import Bytes Case Align CorrBase Tape.
 From GA.Model Require Import Random Fasta Cli.
-From GA.Model Require Phylip.
+From GA.Model Require Phylip Nexus Clustal.
+From GA.Gen Require Import Alpha.
 From GA.Gen Require Import IOConst.
 From GA.Corr Require Import C07.
 
@@ -16,7 +17,7 @@ From GA.Corr Require Import C07.
           2 reformat chain back to the starting format: same bytes as the starting file;
           3 build distboot against build seqboot + compute distance on each replicate;
           4 reformat phylip (k_n = 0 default, 1 --one-line, 2 --no-block, 3 --output-strict) and
-          5 reformat fasta: stdout is the writer model's output (and 0) *)
+          5 reformat fasta, 6 reformat nexus, 7 reformat clustal: stdout is the writer model's output (and 0) *)
 Record case := mk {
   k_kind : Z; k_what : bs;
   k_in : brows; k_tape : list Z; k_n : Z; k_frac : Q; k_shuffle : bool;
@@ -37,12 +38,16 @@ Definition model_ok (c : case) : bool :=
     list_eqb bytes_eqb (map unbs (k_out1 c)) [Phylip.write PHYLIP_LINE PHYLIP_BLOCK ly (unrows (k_in c))]
   else if Z.eqb (k_kind c) 5 then
     list_eqb bytes_eqb (map unbs (k_out1 c)) [write FASTA_LINE (unrows (k_in c))]
+  else if Z.eqb (k_kind c) 6 then
+    list_eqb bytes_eqb (map unbs (k_out1 c)) [Nexus.write false (unrows (k_in c))]
+  else if Z.eqb (k_kind c) 7 then
+    list_eqb bytes_eqb (map unbs (k_out1 c)) [Clustal.write NUCLEOTIDS (unrows (k_in c))]
   else true.
 
 Definition spec_check (c : case) : option bool :=
   Some (Z.eqb (k_rc1 c) (k_rc2 c) && outs_eqb (k_out1 c) (k_out2 c) &&
         (* a failing command is not a reproducibility witness for kinds 2 and 3 *)
-        (Z.eqb (k_kind c) 0 || Z.eqb (k_kind c) 4 || Z.eqb (k_kind c) 5 || Z.eqb (k_rc1 c) 0)).
+        (Z.eqb (k_kind c) 0 || (4 <=? k_kind c)%Z || Z.eqb (k_rc1 c) 0)).
 
 Definition spec_ok (c : case) : bool := ok_of (spec_check c).
 Definition failing := failing_gen model_ok spec_ok.
